@@ -561,7 +561,10 @@ impl Program {
             v.sort_by_key(|(u, _)| *u);
             v
         };
-        let mut offset: u8 = if self.right_boundary_char.is_some() {
+        // The offset is the number of prepended instructions. It reaches 256 when every one of the
+        // 256 characters needs a redirect (PLtoTF.2014.141: "lk_offset=256 satisfies this when
+        // sort_ptr=0"), which does not fit in a u8.
+        let mut offset: u16 = if self.right_boundary_char.is_some() {
             // In .tfm files the boundary char is transmitted in each entrypoint redirect instruction.
             // If there is a boundary char, we need at least one entrypoint redirect to exist so
             // that the boundary char is there.
@@ -577,7 +580,7 @@ impl Program {
         let mut new_entrypoints: HashMap<Char, u8> = Default::default();
         let mut redirects: Vec<u16> = vec![];
         for (i, (u16_entrypoint, chars)) in ordered_entrypoints.into_iter().rev().enumerate() {
-            let u: u8 = match (u16_entrypoint + offset as u16).try_into() {
+            let u: u8 = match (u16_entrypoint + offset).try_into() {
                 Ok(u) => u,
                 Err(_) => {
                     redirects.push(u16_entrypoint);
@@ -586,9 +589,10 @@ impl Program {
                         instructions.pop();
                         offset = 0;
                     }
-                    let u = offset;
-                    // With 256 redirects the last offset is 255 and there is nothing left to address.
-                    offset = offset.saturating_add(1);
+                    let u: u8 = offset
+                        .try_into()
+                        .expect("at most 256 distinct entrypoints, so the redirects sit at 0..=255");
+                    offset += 1;
                     u
                 }
             };
@@ -601,7 +605,7 @@ impl Program {
             next_instruction: None,
             right_char: self.right_boundary_char.unwrap_or(Char(0)),
             operation: Operation::EntrypointRedirect(
-                redirect.checked_add(offset as u16).expect("the inputted lig/kern instructions vector doesn't have enough space for new instructions"),
+                redirect.checked_add(offset).expect("the inputted lig/kern instructions vector doesn't have enough space for new instructions"),
             true,
         ),
         });
@@ -612,12 +616,12 @@ impl Program {
                 next_instruction: None,
                 right_char: Char(0),
                 operation: Operation::EntrypointRedirect(
-                    boundary_char_entrypoint + offset as u16,
+                    boundary_char_entrypoint + offset,
                     false,
                 ),
             });
             // The instructions were rotated: keep the field pointing at the same instruction.
-            self.left_boundary_char_entrypoint = Some(boundary_char_entrypoint + offset as u16);
+            self.left_boundary_char_entrypoint = Some(boundary_char_entrypoint + offset);
         }
         new_entrypoints
     }
